@@ -429,6 +429,8 @@ def main(tier):
                      "process boundary: a fresh interpreter per simulated tool process"],
         },
         "plan_digest": pd,
+        "report_digest": hashlib.sha256(json.dumps(
+            [(k, sorted(obs[k])) for k in sorted(obs)]).encode()).hexdigest(),
         "disagreements": len(disagree),
         "exhaustive": False,
     }
@@ -439,6 +441,7 @@ def main(tier):
         "asynchronous aborts and concurrent callers are not injected: the property speaks of "
         "programs converted before, not of interrupted or overlapping calls",
     ])
+    say("REPORT-DIGEST C12 %s" % coverage["report_digest"])
     say("C12 %s: %d op executions over %d processes / %d hash seeds, %d disagreement(s), %.1fs" %
         (tier, execs, len(hist), len(seeds), len(disagree), wall))
     return EXIT_VIOLATION if reported else EXIT_OK
